@@ -110,7 +110,7 @@ fn gen_history(seed: u64, nops: usize) -> (Vec<usize>, Vec<Op>) {
         let input = *rng.pick(INPUTS);
         let kind = match rng.below(10) {
             0 | 1 | 2 => Kind::IsMatch,
-            3 | 4 => Kind::Replace(*rng.pick(&["[$0]", "<$1>", "x", "$2$1"])),
+            3 | 4 => Kind::Replace(*rng.pick(&["[$0]", "<$1>", "x", "$2$1", "x$", "a\\", "$1\\"])),
             5 | 6 => Kind::Tokenize { take: rng.below(4) },
             7 | 8 => Kind::Analyze { take: rng.below(4) },
             _ => Kind::Recompile,
